@@ -301,7 +301,7 @@ pub(crate) fn compare<S: HK>(c: &C<S>, e: &G, nkeys: usize) {
             let key = k as u8;
             match c.cache.get(&key) {
                 None => {
-                    chk!(!e.present[k], "C03,C01: an entry the model keeps is gone (spurious loss)");
+                    chk!(!e.present[k], "C03,C01,C13,C12,C07: an entry the model keeps is gone (spurious loss / wrong victim / imprecise invalidation)");
                 }
                 Some(ent) => {
                     cnt += 1;
